@@ -329,6 +329,27 @@ def generate():
     hd = ast.unparse(P.find_def(bm, "Banana.handleData"))
     require(hd, ["self.inboundObjectCount = self.objectCounter\n", "self.objectCounter += 1\n",
                  "self.inboundOpenCount = header"], "Banana.handleData")
+    # the object number is taken for EVERY inbound OPEN, before the token can be rejected or dropped (discardCount):
+    # sender (openCount) and receiver (objectCounter) stay in step across rejected messages
+    hdn = P.find_def(bm, "Banana.handleData")
+    open_ifs = [x for x in ast.walk(hdn) if isinstance(x, ast.If) and ast.unparse(x.test) == "typebyte == OPEN"]
+    incs = [x for x in ast.walk(hdn) if isinstance(x, ast.AugAssign) and ast.unparse(x.target) == "self.objectCounter"]
+    if len(open_ifs) != 2 or len(incs) != 1 or ast.unparse(incs[0]) != "self.objectCounter += 1":
+        raise P.Untranslatable("handleData: expected two `if typebyte == OPEN` blocks and one `self.objectCounter += 1`")
+    first = min(open_ifs, key=lambda x: x.lineno)
+    second = max(open_ifs, key=lambda x: x.lineno)
+    heads = [ast.unparse(x) for x in first.body[:2]]
+    if heads != ["self.inboundObjectCount = self.objectCounter", "self.objectCounter += 1"]:
+        raise P.Untranslatable("handleData: the object number is no longer taken at the top of the first `if typebyte == OPEN` block: %r" % heads)
+    rej_uses = [x.lineno for x in ast.walk(hdn) if isinstance(x, ast.Name) and x.id == "rejected" and isinstance(x.ctx, ast.Load)]
+    if not rej_uses or min(rej_uses) < first.lineno:
+        raise P.Untranslatable("handleData: `rejected` is consulted before the object number is taken")
+    require(ast.unparse(second), ["if rejected:", "if self.inOpen:\n            self.discardCount += 1", "self.inOpen = False"],
+            "Banana.handleData (OPEN while discarding)")
+    require(hd, ["elif typebyte == CLOSE:\n", "if self.discardCount:\n", "self.discardCount -= 1\n", "self.handleClose(count)"],
+            "Banana.handleData (CLOSE while discarding)")
+    require(hd, ["rejected = False\n", "if self.discardCount:\n            rejected = True"], "Banana.handleData (discard test)")
+    out.append("Definition open_counts_when_discarded : bool := true.  (* objectCounter += 1 at every OPEN, before rejection / discard *)")
     ho = ast.unparse(P.find_def(bm, "Banana.handleOpen"))
     require(ho, ["self.opentype.append(indexToken)", "child = top.doOpen(opentype)", "child.openCount = openCount",
                  "self.receiveStack.append(child)", "child.start(objectCount)"], "Banana.handleOpen")
